@@ -9,7 +9,7 @@ IDS="${*:-C01 C06 C13 C14 C19}"
 if [ -n "$(git -C /repo status --porcelain --untracked-files=no)" ]; then echo "/repo working tree is not clean; refusing to sweep" >&2; exit 2; fi
 /verif/check build >/dev/null || exit 2
 D=$(mktemp -d /tmp/cosim-sweep.XXXXXX)
-cp /verif/target/release/cosim "$D/cosim" && cp /verif/target/std/release/cosim "$D/cosim-std" || exit 2
+cp /verif/target/release/cosim "$D/cosim" && cp /verif/target/std/plain/cosim "$D/cosim-std" || exit 2
 export COSIM_STD_EXE="$D/cosim-std"
 bad=0
 s="$A"
